@@ -17,7 +17,6 @@
 # and once more (expecting a zero-length packet) when total is a non-zero multiple of mps below wLength.  Absent
 # descriptors: STALL, no data.   `first` must open and `last` must close every packet (that is what the packet
 # generator behind the stream turns into the packet boundaries); a zero-length packet is `valid & last & ~first`.
-import functools
 from rtlmc.model import Design, Violation
 from rtlmc.explore import Spec
 from rtlmc import usbref as U
@@ -148,6 +147,12 @@ def probe_menu(entries, mps, reqs):
 def configs(tier):
     cs = []
     def sa(handler, coll, mps, **kw):
+        # full2: the second transfer of a path uses the full request menu too (else a reduced probe menu)
+        if tier == "thorough":
+            kw.setdefault("full2", 1)
+            if mps <= 16 and coll != "big": kw.setdefault("transfers", 3)
+        elif mps < 64:
+            kw.setdefault("full2", 1)
         cs.append(dict(kind="standalone", handler=handler, coll=coll, mps=mps, **kw))
     if tier == "quick":
         sa("block", "sparse", 8); sa("dist", "sparse", 8)
@@ -155,9 +160,10 @@ def configs(tier):
         sa("block", "dense", 16); sa("dist", "dense", 32)
         sa("mux", "mixed", 8); sa("mux", "mixed", 16); sa("dist", "mixed", 16)
         sa("block", "single", 8); sa("dist", "single", 8)
-        sa("block", "tiny", 8); sa("dist", "tiny", 8)
+        sa("dist", "tiny", 8)
         cs.append(dict(kind="device", handler="block", gap=1, pace=1, transfers=2, lost=1))
         cs.append(dict(kind="device", handler="dist", gap=1, pace=1, transfers=2, lost=1))
+        cs.append(dict(kind="device", handler="mux", gap=1, pace=1, transfers=2, lost=1))
     else:
         for mps in (8, 16, 32, 64):
             for coll in ("sparse", "dense"):
@@ -216,7 +222,7 @@ class StandaloneSpec(Spec):
         self.probes = probe_menu(served, self.mps, self.reqs)
         self.transfers = cfg.get("transfers", 2)
         self.retries = cfg.get("retries", 1 if tier == "quick" else 2)
-        self.time_budget = 60 if tier == "quick" else 850
+        self.time_budget = 300 if tier == "quick" else 850      # a cap, not a target (the machine is shared; compilation counts too)
         self.max_states = 3_000_000
 
     def build(self):
@@ -274,7 +280,7 @@ class StandaloneSpec(Spec):
                 if self.ref.more(t, i, w, pos): acts += [("next", 0), ("next", 1)]
                 if retries: acts += [("retry", 0), ("retry", 1)]
         if transfers:
-            menu = range(len(self.reqs)) if (req < 0 and transfers == self.transfers) else self.probes
+            menu = range(len(self.reqs)) if ((req < 0 and transfers == self.transfers) or self.cfg.get("full2")) else self.probes
             for k in menu: acts += [("req", k, 0), ("req", k, 1)]
         return acts
 
@@ -392,12 +398,14 @@ def device_descriptors(mps, runtime):
                 e.bEndpointAddress = 0x01; e.wMaxPacketSize = 4
     s2 = bytes(get_string_descriptor("mc"))          # 6 bytes
     s5 = bytes(get_string_descriptor("serial7"))     # 16 bytes: two full packets
+    s6 = bytes(get_string_descriptor("elevenchars"))  # 24 bytes: three full packets, not a power of two
     ref = {}
     if runtime:
         d.add_descriptor(_runtime_factory(s2), index=2, descriptor_type=3)
     else:
         d.add_descriptor(s2, index=2, descriptor_type=3)
     d.add_descriptor(s5, index=5, descriptor_type=3)
+    d.add_descriptor(s6, index=6, descriptor_type=3)
     for t, i, raw in d:
         ref[(int(t), i)] = bytes(raw) if isinstance(raw, (bytes, bytearray)) else None
     ref[(3, 2)] = s2
@@ -405,7 +413,7 @@ def device_descriptors(mps, runtime):
 
 
 DEV_REQS = [(1, 0, 18), (1, 0, 64), (1, 0, 8), (2, 0, 9), (2, 0, 32), (2, 0, 255), (3, 0, 255), (3, 1, 255), (3, 2, 255), (3, 5, 255), (3, 5, 16), (3, 5, 2),
-            (3, 3, 255), (6, 0, 10), (0x21, 0, 9)]
+            (3, 3, 255), (6, 0, 10), (0x21, 0, 9), (3, 6, 255), (3, 6, 24)]
 
 
 class DeviceSpec(Spec):
@@ -417,7 +425,7 @@ class DeviceSpec(Spec):
         from rtlmc.env.usb2_host import Host
         self.mps = 8
         self.host = Host(gap=cfg["gap"], pace=cfg["pace"], extra=dict(connect=1))
-        self.time_budget = 60 if tier == "quick" else 850
+        self.time_budget = 300 if tier == "quick" else 850
         self._ref = None
 
     def _descs(self):
@@ -458,7 +466,7 @@ class DeviceSpec(Spec):
         if transfers:
             first = stage == 0 and transfers == self.cfg["transfers"]
             for k in range(len(DEV_REQS)):
-                if first or k in (0, 5, 9, 8, 12): acts.append(("setup", k))
+                if first or k in (0, 5, 8, 9, 12, 15): acts.append(("setup", k))
         return acts
 
     def label(self, a):
